@@ -13,6 +13,8 @@ func main() {
 	switch os.Args[1] {
 	case "dump":
 		cmdDump(os.Args[2:])
+	case "names":
+		cmdNames(os.Args[2:])
 	case "verify":
 		cmdVerify(os.Args[2:])
 	case "check":
